@@ -410,12 +410,16 @@ class Topology(System):
             nb1 = self.nonbond_params[atom_pair]["nb1"]
             nb2 = self.nonbond_params[atom_pair]["nb2"]
 
-            if nb2 != 0:
+            # sigma divides by C6 and epsilon by C12; a pair without
+            # attraction or without repulsion (C6 or C12 of 0, e.g. a
+            # generated pair with a "0 0" atom type) has sigma or
+            # epsilon 0 instead of a division by zero
+            if nb1 != 0:
                 sig = (nb2/nb1)**(1.0/6.0)
             else:
                 sig = 0
 
-            if nb1 != 0:
+            if nb2 != 0:
                 eps = nb1**2.0/(4*nb2)
             else:
                 eps = 0
